@@ -3,6 +3,8 @@ package main
 import (
 	"go/ast"
 	"go/constant"
+	"go/token"
+	"sort"
 	"strings"
 )
 
@@ -52,4 +54,169 @@ func c19Emit(t *tr) {
 	}
 	t.p("(* retryIntervals (async.go), nanoseconds *)\nDefinition retry_intervals : list Z := [%s]%%Z.\n", strings.Join(vs, "; "))
 	t.emitZ("max_retry_duration", "maxRetryDuration")
+	t.c19EmitSecureCAURL()
+	t.c19EmitIssueShape()
+	t.c19EmitDefaultCAs()
+}
+
+// DefaultACME = ACMEIssuer{CA: ..., TestCA: ...}: the directory URLs NewACMEIssuer fills in.
+func (t *tr) c19EmitDefaultCAs() {
+	d, ok := t.decls["DefaultACME"]
+	if !ok {
+		t.errf("missing declaration DefaultACME")
+		return
+	}
+	cl, ok := d.(*ast.CompositeLit)
+	if !ok {
+		t.errf("DefaultACME: expected a composite literal")
+		return
+	}
+	found := 0
+	for _, e := range cl.Elts {
+		kv, ok := e.(*ast.KeyValueExpr)
+		if !ok {
+			continue
+		}
+		switch exprStr(kv.Key) {
+		case "CA":
+			if v, ok := t.strLit(kv.Value, "DefaultACME.CA"); ok {
+				t.p("Definition default_acme_ca : str := %s. (* DefaultACME.CA = %q *)\n", coqStr(v), v)
+				found++
+			}
+		case "TestCA":
+			if v, ok := t.strLit(kv.Value, "DefaultACME.TestCA"); ok {
+				t.p("Definition default_acme_test_ca : str := %s. (* DefaultACME.TestCA = %q *)\n", coqStr(v), v)
+				found++
+			}
+		}
+	}
+	if found != 2 {
+		t.errf("DefaultACME: CA / TestCA not both found")
+	}
+}
+
+// secureCAURL (acmeclient.go) must begin with
+//
+//	if !strings.Contains(caURL, SEP) { caURL = PREFIX + caURL }
+//
+// the two literals are what the model's norm_url is instantiated with.
+func (t *tr) c19EmitSecureCAURL() {
+	fd := t.funcs["secureCAURL"]
+	if fd == nil || fd.Body == nil || len(fd.Body.List) == 0 {
+		t.errf("missing secureCAURL")
+		return
+	}
+	is, ok := fd.Body.List[0].(*ast.IfStmt)
+	if !ok || is.Init != nil || is.Else != nil || len(is.Body.List) != 1 {
+		t.errf("secureCAURL: first statement is not the scheme test")
+		return
+	}
+	ue, ok := is.Cond.(*ast.UnaryExpr)
+	if !ok || ue.Op != token.NOT {
+		t.errf("secureCAURL: scheme test is not a negation")
+		return
+	}
+	call, ok := ue.X.(*ast.CallExpr)
+	if !ok || exprStr(call.Fun) != "strings.Contains" || len(call.Args) != 2 || exprStr(call.Args[0]) != "caURL" {
+		t.errf("secureCAURL: scheme test is not !strings.Contains(caURL, ...)")
+		return
+	}
+	sep, ok1 := t.strLit(call.Args[1], "secureCAURL scheme separator")
+	as, ok := is.Body.List[0].(*ast.AssignStmt)
+	if !ok || len(as.Lhs) != 1 || len(as.Rhs) != 1 || exprStr(as.Lhs[0]) != "caURL" || as.Tok != token.ASSIGN {
+		t.errf("secureCAURL: body of the scheme test is not an assignment to caURL")
+		return
+	}
+	be, ok := as.Rhs[0].(*ast.BinaryExpr)
+	if !ok || be.Op != token.ADD || exprStr(be.Y) != "caURL" {
+		t.errf("secureCAURL: expected caURL = PREFIX + caURL")
+		return
+	}
+	pre, ok2 := t.strLit(be.X, "secureCAURL default scheme")
+	if ok1 && ok2 {
+		t.p("(* secureCAURL: if !strings.Contains(caURL, %q) { caURL = %q + caURL } *)\n", sep, pre)
+		t.p("Definition ca_scheme_sep : str := %s.\nDefinition ca_default_scheme : str := %s.\n", coqStr(sep), coqStr(pre))
+	}
+}
+
+// ACMEIssuer.Issue (acmeissuer.go): the shape the model's [issue] hard-codes.
+//
+//	isRetry := attempts > 0
+//	cert, usedTestCA, err := am.doIssue(ctx, csr, attempts)
+//	if isRetry && usedTestCA && am.CA != am.TestCA { cert, _, err = am.doIssue(ctx, csr, 0) ... StatusTooManyRequests ... ErrNoRetry }
+//
+// Emitted: the threshold of isRetry, the attempts argument of the second doIssue call, the condition
+// of the second order as a sorted list of conjuncts, whether the 429 test and the ErrNoRetry wrap are there.
+func (t *tr) c19EmitIssueShape() {
+	fd := t.funcs["ACMEIssuer.Issue"]
+	if fd == nil || fd.Body == nil {
+		t.errf("missing ACMEIssuer.Issue")
+		return
+	}
+	threshold := int64(-1)
+	var calls []*ast.CallExpr
+	var secondCond string
+	secondArg := int64(-1)
+	has429, hasNoRetry := false, false
+	for _, s := range fd.Body.List {
+		if as, ok := s.(*ast.AssignStmt); ok && as.Tok == token.DEFINE && len(as.Lhs) == 1 && exprStr(as.Lhs[0]) == "isRetry" {
+			if be, ok := as.Rhs[0].(*ast.BinaryExpr); ok && be.Op == token.GTR && exprStr(be.X) == "attempts" {
+				if v, err := t.eval(be.Y, 0); err == nil {
+					threshold, _ = c19ConstantInt64(v)
+				}
+			}
+		}
+	}
+	ast.Inspect(fd.Body, func(n ast.Node) bool {
+		if c, ok := n.(*ast.CallExpr); ok && exprStr(c.Fun) == "am.doIssue" {
+			calls = append(calls, c)
+		}
+		if is, ok := n.(*ast.IfStmt); ok {
+			inner := false
+			ast.Inspect(is.Body, func(m ast.Node) bool {
+				if c, ok := m.(*ast.CallExpr); ok && exprStr(c.Fun) == "am.doIssue" {
+					inner = true
+				}
+				return true
+			})
+			if inner && secondCond == "" {
+				var conj []string
+				var walk func(e ast.Expr)
+				walk = func(e ast.Expr) {
+					if be, ok := e.(*ast.BinaryExpr); ok && be.Op == token.LAND {
+						walk(be.X)
+						walk(be.Y)
+						return
+					}
+					if be, ok := e.(*ast.BinaryExpr); ok {
+						conj = append(conj, exprStr(be.X)+" "+be.Op.String()+" "+exprStr(be.Y))
+						return
+					}
+					conj = append(conj, exprStr(e))
+				}
+				walk(is.Cond)
+				sort.Strings(conj)
+				secondCond = strings.Join(conj, " && ")
+			}
+		}
+		if se, ok := n.(*ast.SelectorExpr); ok && exprStr(se) == "http.StatusTooManyRequests" {
+			has429 = true
+		}
+		if cl, ok := n.(*ast.CompositeLit); ok && exprStr(cl.Type) == "ErrNoRetry" {
+			hasNoRetry = true
+		}
+		return true
+	})
+	if len(calls) == 2 && len(calls[1].Args) == 3 {
+		if v, err := t.eval(calls[1].Args[2], 0); err == nil {
+			secondArg, _ = c19ConstantInt64(v)
+		}
+	}
+	firstArgOK := len(calls) >= 1 && len(calls[0].Args) == 3 && exprStr(calls[0].Args[2]) == "attempts"
+	t.p("(* ACMEIssuer.Issue: isRetry := attempts > %d; %d doIssue calls; second order iff %s; second call with attempts %d *)\n",
+		threshold, len(calls), secondCond, secondArg)
+	t.p("Definition issue_retry_threshold : Z := (%d)%%Z.\n", threshold)
+	t.p("Definition issue_second_order_attempts : Z := (%d)%%Z.\n", secondArg)
+	t.p("Definition issue_shape_ok : bool := %v.\n",
+		len(calls) == 2 && firstArgOK && secondCond == "am.CA != am.TestCA && isRetry && usedTestCA" && has429 && hasNoRetry)
 }
